@@ -536,6 +536,60 @@ fn gen_keys(ctx: &mut Ctx) {
         key_pkts(ctx, wire::key_public(6, CREATED, [0, 0], x, &key_material(x), None), true, "pubkey6_alg");
         pkt(ctx, 6, wire::key_public(3, CREATED, [0, 7], x, &key_material(x), None), matches!(x, 1 | 2 | 3), "pubkey3_alg");
     }
+    // elliptic-curve keys (ECDH 18, ECDSA 19, EdDSALegacy 22) over every kind of curve OID: the curves
+    // the library implements, registered curves it does not (brainpool, the RFC 8410 OIDs of
+    // X25519 / X448 / Ed25519 / Ed448, which are NOT the OpenPGP OIDs of the legacy curves) and
+    // arbitrary ones: whatever is accepted is written back octet for octet
+    {
+        let oids: Vec<Vec<u8>> = vec![
+            vec![0x2A, 0x86, 0x48, 0xCE, 0x3D, 0x03, 0x01, 0x07],
+            vec![0x2B, 0x81, 0x04, 0x00, 0x22],
+            vec![0x2B, 0x81, 0x04, 0x00, 0x23],
+            vec![0x2B, 0x81, 0x04, 0x00, 0x0A],
+            vec![0x2B, 0x06, 0x01, 0x04, 0x01, 0x97, 0x55, 0x01, 0x05, 0x01],
+            vec![0x2B, 0x06, 0x01, 0x04, 0x01, 0xDA, 0x47, 0x0F, 0x01],
+            vec![0x2B, 0x24, 0x03, 0x03, 0x02, 0x08, 0x01, 0x01, 0x07],
+            vec![0x2B, 0x24, 0x03, 0x03, 0x02, 0x08, 0x01, 0x01, 0x0B],
+            vec![0x2B, 0x24, 0x03, 0x03, 0x02, 0x08, 0x01, 0x01, 0x0D],
+            vec![0x2B, 0x65, 0x6E],
+            vec![0x2B, 0x65, 0x6F],
+            vec![0x2B, 0x65, 0x70],
+            vec![0x2B, 0x65, 0x71],
+            vec![0x2B],
+            vec![0x2A, 0x03],
+            pattern(5, 12),
+        ];
+        for (oi, oid) in oids.iter().enumerate() {
+            for alg in [18u8, 19, 22] {
+                let points: Vec<Vec<u8>> = vec![
+                    { let mut p = vec![0x40]; p.extend(pattern(oi + 1, 32)); p },
+                    { let mut p = vec![0x04]; p.extend(pattern(oi + 2, 64)); p },
+                    { let mut p = vec![0x04]; p.extend(pattern(oi + 3, 96)); p },
+                    { let mut p = vec![0x04]; p.extend(pattern(oi + 4, 132)); p },
+                    { let mut p = vec![0x02]; p.extend(pattern(oi + 5, 32)); p },
+                    pattern(oi + 6, 56),
+                ];
+                for pt in points {
+                    let mut mat = vec![oid.len() as u8];
+                    mat.extend_from_slice(oid);
+                    mat.extend(wire::mpi(&pt));
+                    if alg == 18 {
+                        mat.extend([3, 1, 8, 7]);
+                    }
+                    // (the canonical point format of a curve the library implements: 0x40 prefix for the
+                    //  two legacy 25519 curves, uncompressed SEC1 for the others; other prefixes are
+                    //  accepted leniently and normalised, which "canonically encoded input" excludes)
+                    let canonical = match oi {
+                        0..=3 => pt[0] == 0x04,
+                        4 | 5 => pt[0] == 0x40,
+                        _ => true,
+                    };
+                    key_pkts(ctx, wire::key_public(4, CREATED, [0, 0], alg, &mat, None), canonical, "pubkey4_ecc_oid");
+                    key_pkts(ctx, wire::key_public(6, CREATED, [0, 0], alg, &mat, Some(mat.len() as u32)), canonical, "pubkey6_ecc_oid");
+                }
+            }
+        }
+    }
     // v6 pub_len: zero, short, long, exact, with trailing octets
     for alg in [1u8, 16, 25, 99] {
         let mat = key_material(alg);
